@@ -1215,6 +1215,11 @@ func main() {
 		textBefore("leveldb/db.go", "DB.has", "db.getMems()", "db.s.version()") &&
 		textBefore("leveldb/db_iter.go", "DB.newRawIterator", "db.getMems()", "db.s.version()"),
 		"`DB.get`, `DB.has` and `DB.newRawIterator` take the buffers (`getMems`) before the version")
+	o.boolean("ordPointReadsHoldSnapshot", topStmtBefore("leveldb/db.go", "DB.Get", "se := db.acquireSnapshot()", "defer db.releaseSnapshot(se)") &&
+		topStmtBefore("leveldb/db.go", "DB.Get", "defer db.releaseSnapshot(se)", "return db.get(nil, nil, key, se.seq, ro)") &&
+		topStmtBefore("leveldb/db.go", "DB.Has", "se := db.acquireSnapshot()", "defer db.releaseSnapshot(se)") &&
+		topStmtBefore("leveldb/db.go", "DB.Has", "defer db.releaseSnapshot(se)", "return db.has(nil, nil, key, se.seq, ro)"),
+		"`DB.Get` and `DB.Has` keep their sequence number registered as a snapshot (deferred release) for the whole lookup, so no compaction drops what they are entitled to see")
 	o.boolean("ordOpenTxWaitsForFrozenFlush", strings.Contains(funcText("leveldb/db_transaction.go", "DB.OpenTransaction"), "else if err := db.compTriggerWait(db.mcompCmdC); err != nil") &&
 		textBefore("leveldb/db_transaction.go", "DB.OpenTransaction", "db.compTriggerWait(db.mcompCmdC)", "tr := &Transaction{"),
 		"`OpenTransaction` flushes a non-empty buffer and otherwise waits for a pending frozen-buffer flush before recording its sequence number")
